@@ -194,7 +194,7 @@ def drive(lines, timeout=3000):
     if len(out) != len(lines):
         raise RuntimeError(f"driver returned {len(out)} lines for {len(lines)} commands; stderr: {p.stderr[-500:]}")
     if len(XLOG) < 40000:
-        XLOG.extend((l, o) for l, o in zip(lines, out) if l[:5] in ("PARSE", "PRINT", "EVAL ", "APPLY"))
+        XLOG.extend((l, o) for l, o in zip(lines, out) if l[:5] in ("PARSE", "PRINT", "EVAL ", "APPLY", "PLAN "))
     return out
 
 
